@@ -28,7 +28,8 @@ PREAMBLE = ("From Typhon Require Import Base.Calendar Model.C02_template.\n"
             "Open Scope string_scope.\n")
 TRUSTED = [
     "correspondence harness tools/props/c02.py (template grammar, tokeniser of the generated templates, own field "
-    "renderer used as oracle for the recovered placeholder strings, error enum mapping)",
+    "renderer used as oracle for the recovered placeholder strings, error enum mapping; find_instance only has to be "
+    "complete -- every witness it returns is checked by `assemble` in Coq, theorem instance_certificate)",
     "Python re (priority semantics of lazy quantifiers / alternation on the generated regex family), str.format, "
     "datetime, os.path.abspath: modelled, exercised by the correspondence, not verified",
     "names are ASCII without newline (re's unicode \\d and '$' before a trailing newline are outside the statement)",
@@ -543,11 +544,13 @@ def apply_twist(rng, case):
         case["fill"]["sat"] = ""
         if ("u", "sat") not in toks:
             toks = toks[:1] + [("u", "sat"), ("lit", "_")] + toks[1:]
+    if all(t[0] == "lit" for t in merge_lits(toks)):
+        # no placeholder left: that would be a single-file fileset (its `time_coverage` is a period, its times do not come
+        # from the name) -- not a template in the sense of C02; the twist is void and the case stays as generated
+        case["twist"] = tw + "-void"
+        return
     case["tokens"] = merge_lits(toks)
     case["s"], case["e"] = us_of(s), us_of(e)
-    if all(t[0] == "lit" for t in case["tokens"]):
-        # no placeholder left: a single-file fileset, whose `time_coverage` is a period, not a timedelta (not C02's business)
-        case["cfg"]["coverage"] = None
 
 
 def malformed(rng, name, tokens):
@@ -927,9 +930,7 @@ def eval_robust(ctx, exprs):
 
 
 def check_cases(ctx, cases):
-    for c in cases:
-        if all(t[0] == "lit" for t in c["tokens"]):      # single-file fileset (see apply_twist); also for replayed records
-            c["cfg"]["coverage"] = None
+    cases = [c for c in cases if not all(t[0] == "lit" for t in c["tokens"])]   # (replayed records of single-file templates)
     obs_all = [run_impl(c) for c in cases]
     exprs, index = [], []
     for c, o in zip(cases, obs_all):
@@ -1094,6 +1095,7 @@ def run(ctx):
             name, _ = own_render([tuple(t) for t in c["tokens"]], of_us(c["s"]), of_us(c["e"]), c["fill"])
             c["bad_names"] = malformed(ctx.rng, name, c["tokens"])
     nt, stats = check_cases(ctx, cases)
+    ctx.log(f"correspondence: {len(cases)} cases through the implementation and the model, {nt} inside the hypotheses")
     ctx.cov["distinct_nontrivial"] = nt
     ctx.cov["rule"] = ("one case = template (directory + file part, year|year2, month+day|doy, 0-4 sub-day fields, end "
                        "fields none / complete / sub-day suffix, 0-2 user placeholders as .+? / value list / \\d{n}, "
@@ -1104,7 +1106,8 @@ def run(ctx):
     ctx.cov["input_distribution"] = {
         "streams": {k: v for k, v in stats.items() if k in ("law", "twist")},
         "clauses": {k: v for k, v in stats.items() if k not in ("law", "twist")},
-        "twists": {t: sum(1 for c in cases if c["twist"] == t) for t in TWISTS},
+        "twists": {**{t: sum(1 for c in cases if c["twist"] == t) for t in TWISTS},
+                   "void (no placeholder would be left)": sum(1 for c in cases if (c["twist"] or "").endswith("-void"))},
         "info_via": {v: sum(1 for c in cases if c["cfg"]["via"] == v) for v in ("filename", "both", "handler")},
         "end_kind": {"none": sum(1 for c in cases if not any(t[0] == "t" and t[1] for t in c["tokens"])),
                      "with_end": sum(1 for c in cases if any(t[0] == "t" and t[1] for t in c["tokens"]))},
